@@ -146,7 +146,7 @@ func mkRdConn(kind string) *rdConn {
 }
 
 // SD(T) = SetDeadline with one fixed absolute time T = start + 150 ms (the same value every time it is used)
-var c10ops = []string{"SRD(zero)", "SRD(past)", "SRD(+10ms)", "SRD(+100ms)", "idle(20ms)", "idle(200ms)", "deliver", "Read", "SD(T)"}
+var c10ops = []string{"SRD(zero)", "SRD(past)", "SRD(+10ms)", "SRD(+100ms)", "idle(20ms)", "idle(200ms)", "deliver", "Read", "SD(T)", "SRD(+400y)"}
 
 type dlEntry struct {
 	at   time.Duration // when the SetReadDeadline call began
@@ -245,7 +245,7 @@ func c10scenario(kind string, steps, bound int, reader bool, go123 bool) *explor
 			for i := 0; i < steps; i++ {
 				k := zzvsched.Choose(len(c10ops))
 				op := c10ops[k]
-				if op == "Read" && (reader || (avail == 0 && cur() == 0)) {
+				if op == "Read" && (reader || (avail == 0 && (cur() == 0 || cur() == 1<<62-1))) {
 					op = "skip" // would block forever, legitimately
 				}
 				script = append(script, op)
@@ -262,6 +262,12 @@ func c10scenario(kind string, steps, bound int, reader bool, go123 bool) *explor
 					}
 					t := zzvsched.Now().Add(d)
 					setRD(t, t.Sub(zzvsched.Base))
+				case "SRD(+400y)":
+					// a deadline further away than time.Duration can express
+					t := zzvsched.Base.AddDate(400, 0, 0)
+					dls = append(dls, dlEntry{at: zzvsched.Elapsed(), d: 1<<62 - 1})
+					_ = c.setRD(t)
+					dls[len(dls)-1].done = zzvsched.Elapsed() + 1
 				case "SD(T)":
 					if c.setD == nil {
 						script[len(script)-1] = "skip"
@@ -320,10 +326,10 @@ func c10scenario(kind string, steps, bound int, reader bool, go123 bool) *explor
 				return out + " HORIZON", nil
 			}
 			// final quiescence: a reader still parked must have neither a passed deadline nor data
-			if reader && readerInRead && finalDL != 0 {
+			if reader && readerInRead && finalDL != 0 && finalDL <= ex.EndClock {
 				fail("C10 blocked-read-not-released "+kindClass(kind), "reader still blocked in Read at quiescence (%v) although the read deadline %v has passed", ex.EndClock, finalDL)
 			}
-			if reader && readerInRead && avail > 0 && finalDL == 0 {
+			if reader && readerInRead && avail > 0 && (finalDL == 0 || finalDL > ex.EndClock) {
 				fail("C10 blocked-read-with-data "+kindClass(kind), "reader still blocked in Read at quiescence although %d datagram(s) were delivered and no deadline is set", avail)
 			}
 			if viol != nil {
